@@ -176,6 +176,16 @@ func c05Pool(unitIDs map[string]uint64) []c05Val {
 		add(c05Val{coq: strings.Replace(o.coq, "NDec", "VDec", 1), lit: o.lit, kind: "Decimal"})
 	}
 	add(c05Val{coq: "VDec 150%Z (-2)%Z", env: &dtpb.Decimal{Value: "1.50"}, kind: "FHIR.decimal"})
+	// magnitudes whose exponents lie far apart (more than 64 digits), of both signs: ordering is by exact value however
+	// the operands are scaled
+	tiny := "0." + strings.Repeat("0", 69) + "1"
+	huge := "1" + strings.Repeat("0", 70) + ".0"
+	for _, d := range []string{tiny, "-" + tiny, huge, "-" + huge, "-0.0000000001"} {
+		o := decOperand(d, "literal")
+		add(c05Val{coq: strings.Replace(o.coq, "NDec", "VDec", 1), lit: o.lit, kind: "Decimal"})
+	}
+	add(c05Val{coq: "VDec (-1)%Z (-70)%Z", env: &dtpb.Decimal{Value: "-1e-70"}, kind: "FHIR.decimal"},
+		c05Val{coq: "VDec (-3)%Z (-80)%Z", env: &dtpb.Decimal{Value: "-3E-80"}, kind: "FHIR.decimal"})
 	// dates
 	add(c05Date(2020, 1, 1, 0), c05Date(2020, 1, 1, 1), c05Date(2020, 1, 1, 2), c05Date(2020, 1, 2, 2), c05Date(2020, 2, 1, 1), c05Date(2021, 1, 1, 0), c05Date(2019, 12, 31, 2))
 	add(c05Val{coq: "VDate " + zlist(2020, 1, 1), env: &dtpb.Date{ValueUs: 1577836800000000, Precision: dtpb.Date_DAY, Timezone: "UTC"}, kind: "FHIR.date"},
